@@ -112,7 +112,7 @@ theorem enterScript_mem (p : Prog) (gas : Nat)
       exact StateOrder.trans h0 (StateOrder.trans h (MemFrame.of_same rfl rfl))
     · next s' _ heq =>
       rw [heq] at h
-      exact StateOrder.trans h0 h
+      exact StateOrder.trans h0 (StateOrder.trans h (MemFrame.of_same rfl rfl))
 
 /-- every run of the dispatch loop / of `run_function` respects `R`, whatever the outcome (normal
     exit, error, timeout, fuel exhausted) -/
